@@ -278,6 +278,8 @@ def run_C04(ctx):
     res = Result()
     rng = ctx.rng
     progs = corpus_progs(ctx) + [G.gen_labware_program(rng, {"p_fail_each": 0.12, "nops": (1, 20), "p_trough": 0.45}) for _ in range(ctx.n(260))]
+    # ... a few of them on strips with 100+ columns (well IDs "A100" next to "A10")
+    progs += [G.gen_labware_program(rng, {"p_fail_each": 0.1, "nops": (2, 10), "p_trough": 0.0, "p_wide": 1.0, "nlabs": [1]}) for _ in range(ctx.n(10))]
     stateful(ctx, res, "labware", progs, ["ledger"], stop_on_error=False)
     # the same bookkeeping through BaseWorklist.aspirate / dispense (their own flattening and broadcast of the
     # arguments, incl. wells and volumes of different dimensionality), on both devices
@@ -499,6 +501,8 @@ def gen_evo_program(rng, p_fail=0.3, fail_kinds=None, nondyadic_max=None):
     b = G.Builder(rng, {"devices": ["evo"], "nlabs": [1, 2], "max_volumes": [F(950), F(200), F(100), F(50), F(25, 2), F(300)] + (nondyadic_max or [])})
     b.cfg["dev"] = "evo"
     b.wl = impl.make_wl(b.cfg)
+    if b.labs is None:
+        return b.program()
     nops = rng.randint(1, 5)
     for _ in range(nops):
         fail = rng.random() < p_fail
@@ -925,8 +929,13 @@ def run_C19(ctx):
         if key in seen:
             continue
         seen.add(key)
-        def call(n=n, arr=arr):
-            out = get_trough_wells(impl.fl(n), impl.arr_str(arr) if arr[0] != "V" else np.array(arr[1], dtype=str) if rng.random() < 0.5 else list(arr[1]))
+        sdt = rng.random() < 0.15
+        def call(n=n, arr=arr, sdt=sdt):
+            wells = impl.arr_str(arr) if arr[0] != "V" else np.array(arr[1], dtype=str) if rng.random() < 0.5 else list(arr[1])
+            if sdt and isinstance(wells, np.ndarray) and wells.size and hasattr(np.dtypes, "StringDType"):
+                # NumPy 2's variable-width string arrays are arrays of well IDs like any other
+                wells = wells.astype(np.dtypes.StringDType())
+            out = get_trough_wells(impl.fl(n), wells)
             return "ok " + ",".join(proto.e_str(str(x)) for x in out)
         ans = guarded(call)
         msg = None
@@ -1108,9 +1117,9 @@ def run_C10(ctx):
                 rng.shuffle(l)
             args.append(("many", l))
     cases = []
-    # every collection is handed over as a list and as a tuple (any iterable is legal; a tuple is hashable, and
+    # every collection is handed over as a list, a tuple and an object array (any iterable is legal; a tuple is hashable, and
     # `Tip.T3 == 4` although the int 4 means tip number 4: equal-looking tuples are different selections)
-    for a, cont in [(a, c) for a in args for c in (("list", "tuple") if a[0] == "many" else (None,))]:
+    for a, cont in [(a, c) for a in args for c in (("list", "tuple", "array") if a[0] == "many" else (None,))]:
         def call(a=a, cont=cont):
             out = prep("L", 1, 10.0, "", impl.tiparg(a, cont), "", "", "", "")[4]
             return "ok ~" if out == "" else f"ok {int(out)}"
@@ -1135,6 +1144,10 @@ def run_C10(ctx):
     stateful(ctx, res, "evo", progs, ["evo"])
     progs = [G.gen_worklist_program(rng, {"kinds": ["transfer"], "nops": (1, 2), "p_fail": 0.0}) for _ in range(ctx.n(40))]
     stateful(ctx, res, "transfer-pairs", progs, ["transfer"])
+    # multi-well aspirate / dispense with a tip collection that has exactly one member per well (list, tuple, object
+    # array): every record carries the OR of the collection, not "its" member
+    progs = [G.gen_worklist_program(rng, {"kinds": ["aspirate", "dispense"], "nops": (1, 4), "p_fail": 0.0, "p_tips_per_well": 0.8}) for _ in range(ctx.n(40))]
+    stateful(ctx, res, "aspirate-dispense-tips-per-well", progs, ["records_masks"])
     # only the clauses of C10: mask / slot occupancy of EVO commands, equal masks on both records of a pair
     res.viol = [f for f in res.viol if f.sig and (f.sig.startswith("C10:") or f.sig == "C07:pair-fields-differ")]
     return res
@@ -1285,6 +1298,8 @@ def run_C08(ctx):
         else:
             wells = rng.sample(ids, min(len(ids), 4))
         bad = ["A1", "A001", "a01", "AA01", "Z99", "A00", "01A", "", "A", "7", "A-1", "B02 ", G.wid(min(R, 25), 0), G.wid(0, C)]
+        # (IDs spelled with non-ASCII decimal digits are read as numbers by the helper's `\d` — like "A1", which it also
+        # numbers; the model's loose parser is ASCII-only, and the property constrains OPERATIONS naming such wells: below)
         for w in wells + rng.sample(bad, 4 if (kind, R, C) not in full else len(bad)):
             for dev, f in (("evo", evo_pos), ("fluent", fluent_pos)):
                 a = guarded(lambda: f"ok {f(L, w)}")
@@ -1351,16 +1366,25 @@ def run_C08(ctx):
     progs = []
     for _ in range(ctx.n(140)):
         b = G.Builder(rng, {"p_small": 0.5})
+        if b.labs is None:
+            progs.append(b.program())
+            continue
         li = rng.randrange(len(b.labs))
         L = b.labs[li]
         some = str(L.wells[rng.randrange(L.wells.shape[0]), rng.randrange(min(L.wells.shape[1], 2))])
         # besides plainly unknown IDs: an existing ID with one more character (a fixed-width string type would cut it
         # back to the existing ID), whose loosely parsed column may exist as well ("A011" -> row A, column 11)
+        # ... and an existing ID respelled with non-ASCII decimal digits (Arabic-Indic, fullwidth, Devanagari): `\d`, `int()`
+        # and `str.isdecimal()` all read them as numbers, but no labware has a well of that name
+        uni = lambda t: some[0] + "".join(chr(t + int(ch)) if ch.isdigit() else ch for ch in some[1:])
         w = rng.choice(["A1", "Z99", "AA01", "a01", G.wid(min(L.n_rows, 25), 0), G.wid(0, L.n_columns), "A001",
-                        some + "0", some + "1", some + "2", some + " ", some + "x", some + some[-1]])
+                        some + "0", some + "1", some + "2", some + " ", some + "x", some + some[-1],
+                        uni(0x0660), uni(0xFF10), uni(0x0966), uni(0x0660), uni(0xFF10)])
         if w in L.indices:
             continue
         k = rng.choice(["aspirate", "dispense", "transfer", "distribute"])
+        if k == "distribute" and not w.isascii():
+            k = "transfer"      # (distribute numbers the wells before it looks them up; the model's loose parser is ASCII-only)
         if k in ("aspirate", "dispense"):
             op = {"op": k, "lab": li, "wells": ("V", [w]), "vols": ("S", F(1)), "kw": {}}
         elif k == "transfer":
@@ -1417,6 +1441,18 @@ def pick_sub(rng, R, C, ids2d):
     return ("M", r1 - r0, c1 - c0, [ids2d[r][c] for r in range(r0, r1) for c in range(c0, c1)])
 
 
+def _clone(obj, via):
+    """The helper as a worker process / a snapshotting caller gets it: a copy, a deep copy or a pickle round trip."""
+    import copy as _c, pickle as _p
+    if via == "copy":
+        return _c.copy(obj)
+    if via == "deepcopy":
+        return _c.deepcopy(obj)
+    if via == "pickle":
+        return _p.loads(_p.dumps(obj))
+    return obj
+
+
 def run_C15(ctx):
     from robotools import WellShifter, WellRotator, WellRandomizer
     res = Result()
@@ -1441,8 +1477,11 @@ def run_C15(ctx):
                 d0 = rng.choice(["shift", "unshift", "unshift"])
                 pre.append((d0, pick_sub(rng, rA, cA, idsA) if d0 == "shift" else pick_sub(rng, rB, cB, idsB)))
             res.dist["shifter: earlier calls on the same object"] += 1
+        via = rng.choice([None, None, None, "copy", "deepcopy", "pickle"])
+        if via:
+            res.dist["transform object used through copy / deepcopy / pickle"] += 1
         def call():
-            sh = WellShifter((rA, cA), (rB, cB), anchor)
+            sh = _clone(WellShifter((rA, cA), (rB, cB), anchor), via)
             for d0, w0 in pre:
                 try:
                     sh.shift(impl.arr_str(w0)) if d0 == "shift" else sh.unshift(impl.arr_str(w0))
@@ -1479,7 +1518,8 @@ def run_C15(ctx):
         ids = [[G.wid(r, c) for c in range(C)] for r in range(R)]
         wells = pick_sub(rng, R, C, ids)
         direction = rng.choice(["cw", "ccw"])
-        rot = WellRotator((R, C))
+        via = rng.choice([None, None, None, "copy", "deepcopy", "pickle"])
+        rot = _clone(WellRotator((R, C)), via)
         ans = guarded(lambda: "ok " + arr_result(rot.rotate_cw(impl.arr_str(wells)) if direction == "cw" else rot.rotate_ccw(impl.arr_str(wells))))
         msg = None
         flat = wells[1] if wells[0] == "V" else [wells[1]] if wells[0] == "S" else wells[3]
@@ -1514,7 +1554,10 @@ def run_C15(ctx):
         ids = [[G.wid(r, c) for c in range(C)] for r in range(R)]
         wells = pick_sub(rng, R, C, ids)
         direction = rng.choice(["rand", "derand"])
-        rz = WellRandomizer((R, C), seed, mode=mode)
+        via = rng.choice([None, None, "copy", "deepcopy", "pickle"])
+        if via:
+            res.dist["transform object used through copy / deepcopy / pickle"] += 1
+        rz = _clone(WellRandomizer((R, C), seed, mode=mode), via)
         rz2 = WellRandomizer((R, C), seed, mode=mode)
         orig = list(rz.lookup.keys()); rand = [str(rz.lookup[k]) for k in orig]
         ans = guarded(lambda: "ok " + arr_result(rz.randomize_wells(impl.arr_str(wells)) if direction == "rand" else rz.derandomize_wells(impl.arr_str(wells))))
@@ -1585,6 +1628,14 @@ def run_C17(ctx):
             path = tmp / f"{n}_{name}" if not name.startswith(".") else tmp / f"d{n}" / name
             path.parent.mkdir(exist_ok=True)
             pre = rng.choice([None, b"", b"OLD" * 3, b"X" * 5000])
+            if len(recs) >= 2 and rng.random() < 0.2:
+                # the very records, but joined with bare LF / bare CR / a mix (a checkout with end-of-line conversion)
+                try:
+                    enc = [r.encode("latin_1") for r in recs]
+                    pre = rng.choice([b"\n".join(enc), b"\r".join(enc), b"\n".join(enc[:1]) + b"\r\n" + b"\n".join(enc[1:])])
+                    res.dist["pre-existing file: same records, other line endings"] += 1
+                except UnicodeEncodeError:
+                    pass
             if pre is not None:
                 path.write_bytes(pre)
             arg = str(path) if rng.random() < 0.5 else path
@@ -2149,6 +2200,37 @@ class EvoStepOracle(O.Oracle):
 
 
 ORACLES["evo_step"] = EvoStepOracle
+
+
+class MaskOracle(O.Oracle):
+    """C10 for multi-well aspirate / dispense: every A;/D; record of the call carries the OR of the tip collection."""
+    name = "records_masks"
+
+    def __init__(self, prog):
+        super().__init__(prog)
+        self.n = 0
+
+    def __call__(self, run, i, op, exc):
+        recs = [str(r) for r in run.wl]
+        new = recs[self.n:]
+        self.n = len(recs)
+        t = (op.get("kw") or {}).get("tip")
+        if exc is not None or op["op"] not in ("aspirate", "dispense") or t is None:
+            return
+        syms = [t[1]] if t[0] == "single" else list(t[1])
+        if any(sy[0] not in ("int", "member") or (sy[0] == "member" and sy[1] == -1) for sy in syms) or not syms:
+            return
+        m = 0
+        for sy in syms:
+            m |= (1 << (sy[1] - 1)) if sy[0] == "int" else sy[1]
+        for r in new:
+            if r[:2] in ("A;", "D;"):
+                got = r.split(";")[9]
+                if got != str(m):
+                    self.fail(f"C10:record-mask:{op['op']}", f"op {i}: tips {syms} -> mask {m}, but {r!r} carries {got!r}", i)
+
+
+ORACLES["records_masks"] = MaskOracle
 
 
 def run_C09(ctx):
